@@ -92,6 +92,15 @@ def diff_signature(final, serials, rw):
     return "+".join(sorted(best[0])), "+".join(sorted(best[1]))
 
 
+def more_log_entries_than_any_serial(e):
+    def logs(p):
+        return sum(int(a.get("log", 0)) for a in p["w"].get(e["w"], {}).get("idx", {}).values())
+    try:
+        return logs(e["final"]) > max(logs(s) for s in e["serials"])
+    except Exception:
+        return False
+
+
 def run(tier, replay_path, t0):
     prop = "C20"
     rnd = random.Random(seed())
@@ -201,6 +210,11 @@ def run(tier, replay_path, t0):
             cause = "block-arrives-mid-refresh"
         elif e["r"] == "scan" and inside:
             cause = "operation-or-block-mid-scan"
+        elif e["r"] == "refresh" and inside and more_log_entries_than_any_serial(e):
+            # an operation that refreshes itself (cancel_tx, retrieve_*) ran inside the refresh and the
+            # wallet ends with MORE log entries than any serial order gives: both refreshes restored
+            # the same missing output (the scan step of update_wallet_state works from a stale snapshot)
+            cause = "overlapping-refreshes-restore-twice"
         else:
             cause = sig
         # is this schedule one the section-level model of the pinned code covers, and does the model
